@@ -560,10 +560,25 @@ func c05Inbound(p c05Params, rng *rand.Rand, r fw.Result, fail failFn) fw.Result
 		}
 	}
 	for i := 0; i < p.N; i++ {
-		q := rng.Intn(2)
+		q := rng.Intn(3) // QoS 2: the message waits inside the client for its PUBREL while other packets arrive
 		cases = append(cases, tc{topics[rng.Intn(3)], rng.Intn(400), q, rng.Intn(2) == 0, q > 0 && rng.Intn(2) == 0, uint16(1 + rng.Intn(65535))})
 	}
-	for _, k := range cases {
+	// what the handler was given must stay what it was given: later packets must not show through
+	type keptMsg struct {
+		m    *mqtt.Message
+		want msgSnap
+	}
+	var kept []keptMsg
+	recheck := func() *fw.Result {
+		for _, km := range kept {
+			if now := snapMsg(km.m); !now.eq(km.want) {
+				rr := fail("delivered-message-changed-later", "a message the handler had been given as %v reads %v after later packets were received", km.want, now)
+				return &rr
+			}
+		}
+		return nil
+	}
+	for ci, k := range cases {
 		pl := make([]byte, k.pl)
 		if k.pl < 4096 {
 			rng.Read(pl)
@@ -572,8 +587,19 @@ func c05Inbound(p c05Params, rng *rand.Rand, r fw.Result, fail failFn) fw.Result
 		}
 		got = nil
 		conn.Send(mqttref.EncPublish(k.topic, pl, byte(k.qos), k.dup, k.retain, k.id), "")
+		if k.qos == 2 {
+			// another small message overtakes it before the PUBREL
+			conn.Send(mqttref.EncPublish("interleaved/topic", []byte("INTERLEAVED-PAYLOAD-INTERLEAVED-PAYLOAD"), 0, false, false, 0), "")
+			conn.Send(mqttref.EncRaw(byte(mqttref.PUBREL<<4|2), []byte{byte(k.id >> 8), byte(k.id)}), "")
+		}
 		if err := scen.Barrier(cli); err != nil {
 			return fail("link-ended-on-wellformed-input", "inbound PUBLISH (topic len %d, payload %d, q%d) ended the connection: %v / Err=%v", len(k.topic), k.pl, k.qos, err, cli.Err())
+		}
+		if k.qos == 2 {
+			if len(got) != 2 || got[0].Topic != "interleaved/topic" {
+				return fail("inbound-handover-count", "inbound QoS 2 PUBLISH + QoS 0 PUBLISH + PUBREL: %d hand-overs", len(got))
+			}
+			got = got[1:]
 		}
 		if len(got) != 1 {
 			return fail("inbound-handover-count", "inbound PUBLISH (payload %d, q%d) handed over %d times", k.pl, k.qos, len(got))
@@ -587,11 +613,23 @@ func c05Inbound(p c05Params, rng *rand.Rand, r fw.Result, fail failFn) fw.Result
 			return fail("inbound-fields", "sent topic len %d payload %d q%d retain=%v dup=%v id=%d; handler got topic len %d payload %d q%d retain=%v dup=%v id=%d",
 				len(k.topic), k.pl, k.qos, k.retain, k.dup, wantID, len(m.Topic), len(m.Payload), m.QoS, m.Retain, m.Dup, m.ID)
 		}
+		if k.pl < 4096 && len(kept) < 400 {
+			kept = append(kept, keptMsg{m, snapMsg(m)})
+		}
+		if ci%50 == 49 {
+			if rr := recheck(); rr != nil {
+				return *rr
+			}
+		}
 		r.NT = append(r.NT, fw.Hash("in", len(k.topic), k.pl, k.qos, k.retain, k.dup, conn.Chunk))
 		if r.Sample == nil {
 			r.Sample = map[string]interface{}{"mode": "inbound", "topic_len": len(k.topic), "payload_len": k.pl, "qos": k.qos, "read_chunk": conn.Chunk}
 		}
 	}
+	if rr := recheck(); rr != nil {
+		return *rr
+	}
+	r.Counters["delivered_messages_rechecked_after_later_packets"] += len(kept)
 	r.Evals = len(cases)
 	return r
 }
